@@ -49,7 +49,8 @@ type Input struct {
 	Algs    []string          `json:"algs,omitempty"`
 	RunDir  bool              `json:"run_dir,omitempty"`
 	Params  map[string]string `json:"params,omitempty"`
-	File2   []byte            `json:"file2,omitempty"` // nulltwin: the reference document ({} / [] in place of null)
+	Inter   [][]byte          `json:"intermediate_pems,omitempty"` // caller-supplied intermediate certificates
+	File2   []byte            `json:"file2,omitempty"`             // nulltwin: the reference document ({} / [] in place of null)
 	// DeadlineMs shortens the deadline for inputs that are expected to hang on unrepaired code (so that a
 	// hang costs seconds, not the full 10 s per call)
 	DeadlineMs int `json:"deadline_ms,omitempty"`
@@ -220,6 +221,8 @@ func execute(in *Input) Result {
 		return execCertCheck(r, in)
 	case "nulltwin":
 		return execNullTwin(r, in)
+	case "layoutcerts":
+		return execLayoutCerts(r, in)
 	}
 	r.call("unknown entry "+in.Entry, func() error { return fmt.Errorf("unknown entry") })
 	return r.finish(ERR)
@@ -363,10 +366,10 @@ func inToto(r *recorder, tag string, md intoto.Metadata, keys map[string]intoto.
 			rd := filepath.Join(tmp, "rundir")
 			os.MkdirAll(rd, 0o755)
 			os.WriteFile(filepath.Join(rd, "artifact"), []byte("x"), 0o644)
-			_, err := intoto.InTotoVerifyWithDirectory(md, keys, linkDir, rd, "", in.Params, nil, true)
+			_, err := intoto.InTotoVerifyWithDirectory(md, keys, linkDir, rd, "", in.Params, in.Inter, true)
 			return err
 		}
-		_, err := intoto.InTotoVerify(md, keys, linkDir, "", in.Params, nil, true)
+		_, err := intoto.InTotoVerify(md, keys, linkDir, "", in.Params, in.Inter, true)
 		return err
 	}
 	name := tag + "InTotoVerify"
